@@ -451,8 +451,9 @@ void ClipperOffset::DoGroupOffset(Group& group)
 	{
 		// a straight path (2 points) can now also be 'polygon' offset
 		// where the ends will be treated as (180 deg.) joins
-        if (!group.lowest_path_idx.has_value()) delta_ = std::abs(delta_);
-		group_delta_ = (group.is_reversed) ? -delta_ : delta_;
+		// (delta_ itself belongs to the whole call and must stay as it is for the groups that follow)
+		const double delta = (group.lowest_path_idx.has_value()) ? delta_ : std::abs(delta_);
+		group_delta_ = (group.is_reversed) ? -delta : delta;
 	}
 	else
 		group_delta_ = std::abs(delta_);// *0.5;
